@@ -72,7 +72,8 @@ def run(c):
     # ---- stage A
     if thorough:
         p = os.path.join(sd, "MC_C14.cfg")
-        open(p, "w").write(open(p).read().replace("MaxLen = 4", "MaxLen = 5").replace("MaxFixed = 3", "MaxFixed = 4").replace("MaxText = 4", "MaxText = 5"))
+        t = open(p).read().replace("MaxLen = 4", "MaxLen = 6").replace("MaxFixed = 3", "MaxFixed = 4").replace("MaxText = 4", "MaxText = 5")
+        open(p, "w").write(t)
     c.stage_a(sd, "MC_C14", "MC_C14", timeout=1800, workers=min(NCPU, 8))
     # ---- stage B: boundary strings
     res = c.tlc(sd, "MC_C14gen", "MC_C14gen", timeout=900, workers=4)
